@@ -73,11 +73,11 @@ fn parse_iter(t: &[&str]) -> Option<It> {
     let reply = match rest {
         ["none"] => Rep::NoReply,
         ["other"] => Rep::Other,
-        ["trk", f @ ..] if f.len() == 7 || f.len() == 8 => {
+        ["trk", f @ ..] if f.len() >= 7 && f.len() <= 9 => {
             let v: Option<Vec<i64>> = f.iter().map(|s| n(s)).collect();
             let v = v?;
             if v[1] < 0 { return None; }
-            Rep::Trk(Trk { leap: v[0] as u16, ref_ns: v[1], off: v[2] as u32, disp: v[3] as u32, delay: v[4] as u32, interval: v[5] as u32, refid: v[6] as u32, ip4: v.get(7).map(|x| *x as u32) })
+            Rep::Trk(Trk { leap: v[0] as u16, ref_ns: v[1], off: v[2] as u32, disp: v[3] as u32, delay: v[4] as u32, interval: v[5] as u32, refid: v[6] as u32, ip4: v.get(7).and_then(|x| if *x < 0 { None } else { Some(*x as u32) }), stratum: v.get(8).map(|x| *x as u16) })
         }
         _ => return None,
     };
@@ -234,6 +234,9 @@ const G: i64 = 5_000_000_000;
 const PHC0: u32 = 0x5048_4330;
 
 fn trk_text(t: &Trk) -> String {
+    if let Some(st) = t.stratum {
+        return format!("trk {} {} {} {} {} {} {} {} {}", t.leap, t.ref_ns, t.off, t.disp, t.delay, t.interval, t.refid, t.ip4.map(|a| a as i64).unwrap_or(-1), st);
+    }
     match t.ip4 {
         None => format!("trk {} {} {} {} {} {} {}", t.leap, t.ref_ns, t.off, t.disp, t.delay, t.interval, t.refid),
         Some(a) => format!("trk {} {} {} {} {} {} {} {}", t.leap, t.ref_ns, t.off, t.disp, t.delay, t.interval, t.refid, a),
@@ -243,7 +246,7 @@ fn iter_text(as_of: i64, t_reply: i64, t_grace: i64, file: &str, reply: &str) ->
     format!("{} {} {} {} {} {}", as_of.div_euclid(1_000_000_000), as_of.rem_euclid(1_000_000_000), t_reply, t_grace, file, reply)
 }
 fn simple_trk(refid: u32) -> Trk {
-    Trk { leap: 0, ref_ns: 1_700_000_000_000_000_000, off: 0x0200_0000 | 0x000a_0000, disp: 0x0400_0000 | 0x00b0_0000, delay: 0x0600_0000 | 0x00c0_0000, interval: (4u32 << 25) | (1 << 23), refid, ip4: None }
+    Trk { leap: 0, ref_ns: 1_700_000_000_000_000_000, off: 0x0200_0000 | 0x000a_0000, disp: 0x0400_0000 | 0x00b0_0000, delay: 0x0600_0000 | 0x00c0_0000, interval: (4u32 << 25) | (1 << 23), refid, ip4: None, stratum: None }
 }
 
 /// deterministic boundary grid: the 5 s threshold +-1 ns after an answer and at start-up, both
@@ -297,6 +300,13 @@ pub fn grid() -> Vec<String> {
             for ip in [PHC0, 0, 1, u32::MAX] {
                 for f in ["fok 12345", "funread"] {
                     let t = Trk { ip4: Some(ip), ..simple_trk(PHC0) };
+                    v.push(format!("poll {} phc {} ; {}", t0, PHC0, iter_text(a, a, a + 1000, f, &trk_text(&t))));
+                }
+            }
+            // the stratum chronyd reports for itself (refclock stratum + 1, 16 = unsynchronised, …): irrelevant to the match
+            for st in [0u16, 2, 3, 15, 16, 65535] {
+                for f in ["fok 12345", "funread"] {
+                    let t = Trk { stratum: Some(st), ..simple_trk(PHC0) };
                     v.push(format!("poll {} phc {} ; {}", t0, PHC0, iter_text(a, a, a + 1000, f, &trk_text(&t))));
                 }
             }
@@ -403,6 +413,7 @@ pub fn gen_poll(rng: &mut Rng) -> String {
                 (_, 6) => 0,
                 _ => { let r = rng.next() as u32; rng.pick(&[PHC0, 1, r]) }
             };
+            if rng.chance(1, 5) { t.stratum = Some(rng.pick(&[0u16, 2, 3, 10, 16])); }
             let step = rng.range(0, 3_000_000_000);
             let t_reply = if monotone { now + step } else { (now + step - rng.pick(&[0i64, 0, 2 * G])).max(0) };
             let t_grace = t_reply + match rng.below(10) {
